@@ -1,4 +1,5 @@
 import MioModel.Lemmas.Stream
+import MioModel.Props.C12
 /-! # C10 — Concurrent send() calls on one endpoint never corrupt or lose messages
 
 `send` on a FramedTcp endpoint holds the connection's send lock for the whole frame (framed_tcp.rs),
@@ -69,5 +70,24 @@ example : sectionsWire [⟨0, [1, 2, 3], [.accept 1, .wouldBlock, .accept 2, .ac
   have h3 : encodeVar 3 = [3] := by rw [encodeVar]; simp
   have h1 : encodeVar 1 = [1] := by rw [encodeVar]; simp
   simp [sectionsWire, framedSend, framedSendLoop, h3, h1]
+
+/-! ## Udp: one datagram per call
+
+In M8 a `send` is one step (one `send`/`send_to` system call hands the kernel one whole datagram), so an
+execution with any number of sending threads is a sequence of such steps in some interleaving, and
+`Mio.C12.delivered_exactly_once` already speaks about every such sequence: each datagram whole, once.
+What remains is the order per sending socket. -/
+
+/-- the datagrams a receiver gets from one sender are that sender's datagrams in the order of its
+send calls, whatever other senders did in between -/
+theorem udp_concurrent_whole (w : Mio.Udp.World) (h : Mio.Udp.Reachable w) (j a : Nat) (s : Mio.Udp.Sock)
+    (hj : w.socks[j]? = some s) :
+    (s.events.map Mio.Udp.evDgram ++ s.queue.map (Mio.Udp.cutK s.kind)).filter (fun d => d.src = a) =
+      ((Mio.Udp.expected w.log j s.kind).filter (fun d => d.src = a)).map (Mio.Udp.cutK s.kind) := by
+  rw [Mio.C12.delivered_exactly_once w h j s hj, List.filter_map]
+  congr 1
+  apply List.filter_congr
+  intro d _
+  simp [Function.comp, Mio.Udp.cutK_src]
 
 end Mio.C10
